@@ -42,6 +42,7 @@ COMPONENTS_REAL = [
 ]
 COMPONENTS_STUB = ["the primary server (scripted stream)", "network (netsim)", "TSIG signer of the primary (independent hmac implementation)"]
 EXPECTED_PROBES = [
+    "secondary_at_serial_zero",
     "valid_retry_after_failed_attempt",
     "net_tier_runs",
     "out_of_zone_glue_in_valid_stream",
@@ -87,7 +88,7 @@ TYPES = ["A", "AAAA", "TXT", "MX", "NS", "CNAME"]
 
 def gen_chain(rng, nver):
     """Returns list of (serial, records) where records is a sorted list of tuples."""
-    serial = rng.choice([1, 10, 2**31 - 2, 2**32 - 3, 2**32 - 2, 12345])
+    serial = rng.choice([0, 1, 10, 2**31 - 2, 2**32 - 3, 2**32 - 2, 2**32 - 1, 12345])
     recs = set()
     recs.add(("@", "NS", 300, "ns1"))
     for _ in range(rng.choice([1, 3, 6])):
@@ -96,9 +97,7 @@ def gen_chain(rng, nver):
     versions = [(serial, sorted(recs))]
     for _ in range(nver - 1):
         step = rng.choice([1, 1, 1, 2, 1000])
-        serial = (serial + step) % 2**32
-        if serial == 0:
-            serial = 1
+        serial = (serial + step) % 2**32  # 0 is a legal serial (right after the wrap)
         recs = set(recs)
         for _ in range(rng.choice([0, 1, 2, 4])):
             r = rng.random()
@@ -528,7 +527,7 @@ def _run_msg(case, res, log):
     is_udp = style in ("udp_ixfr", "usetcp")
     base_serial = versions[case["k"]][0]
     if case.get("base_serial_lie") and mode == "IXFR":
-        base_serial = (base_serial + 3) % 2**32 or 1
+        base_serial = (base_serial + 3) % 2**32
     msgs, info, truncated = make_messages(case)
     # reference verdict on the faulted stream
     try:
@@ -614,6 +613,8 @@ def _run_msg(case, res, log):
         Z.compare("C13:retry-after-failure", b, b.snap_nodes(), want2, f"{tag}: valid transfer after a failed attempt")
         res.probes.inc("valid_retry_after_failed_attempt")
     # probes
+    if versions[case["k"]][0] == 0 and mode == "IXFR":
+        res.probes.inc("secondary_at_serial_zero")
     if info["fired"] is None:
         if any(r[0] == "OUT" for r in case["stream"]):
             res.probes.inc("out_of_zone_glue_in_valid_stream")
